@@ -57,12 +57,21 @@ func (i Invocation) Materialise(inDir string) (spec, cfg string, err error) {
 	}
 	spec = filepath.Join(inDir, i.SpecName)
 	cfg = filepath.Join(inDir, ".goag.yaml")
-	if err = os.WriteFile(spec, []byte(i.Spec), 0o644); err != nil {
+	// spec and config are only rewritten when their content changes (a user does not touch them between runs)
+	if old, e := os.ReadFile(spec); e != nil || string(old) != i.Spec {
+		if err = os.WriteFile(spec, []byte(i.Spec), 0o644); err != nil {
+			return
+		}
+		simos.Touch(spec)
+	}
+	if !i.HasConfig {
+		os.Remove(cfg)
 		return
 	}
-	os.Remove(cfg)
-	if i.HasConfig {
-		err = os.WriteFile(cfg, []byte(i.Config), 0o644)
+	if old, e := os.ReadFile(cfg); e != nil || string(old) != i.Config {
+		if err = os.WriteFile(cfg, []byte(i.Config), 0o644); err == nil {
+			simos.Touch(cfg)
+		}
 	}
 	return
 }
